@@ -360,6 +360,15 @@ func NewCompoundUniverse(name string, s Schema, free, probes []Tuple, nvals int)
 
 // NewCompoundUniverseD: driver factory for other value types.
 func NewCompoundUniverseD(name string, s Schema, free, probes []Tuple, nvals int, mkDrv func(SchemaCodec, *KeySpec[Tuple], map[string]int) Driver) *Universe {
+	return newCompoundUniverse(name, s, nil, free, probes, nvals, mkDrv)
+}
+
+// NewCompoundUniverseS: with setup tuples inserted before the closure starts (held, never part of the alphabet unless also free).
+func NewCompoundUniverseS(name string, s Schema, setup, free, probes []Tuple, nvals int) *Universe {
+	return newCompoundUniverse(name, s, setup, free, probes, nvals, nil)
+}
+
+func newCompoundUniverse(name string, s Schema, setup, free, probes []Tuple, nvals int, mkDrv func(SchemaCodec, *KeySpec[Tuple], map[string]int) Driver) *Universe {
 	codec := SchemaCodec{S: s}
 	u := &Universe{Name: "compound[" + s.String() + "]/" + name, Kind: "compound", KeyType: s.String(), NVals: nvals, HasRange: true}
 	var keys []Tuple
@@ -382,6 +391,16 @@ func NewCompoundUniverseD(name string, s Schema, free, probes []Tuple, nvals int
 	for i := range keys {
 		u.Probes = append(u.Probes, i)
 		u.Bounds = append(u.Bounds, i)
+	}
+	for i, t := range setup {
+		k := add(t)
+		u.Setup = append(u.Setup, Op{Kind: OpInsert, K: k, V: 1})
+		if k >= len(u.Probes) {
+			u.Probes = append(u.Probes, k)
+			if i == 0 || i == len(setup)/2 || i == len(setup)-1 {
+				u.Bounds = append(u.Bounds, k)
+			}
+		}
 	}
 	spec := &KeySpec[Tuple]{Keys: keys, Ident: tupleIdent, Str: func(t Tuple) string { return t.String() }}
 	index, class := BuildIndex(spec)
@@ -468,6 +487,31 @@ func CompoundRegistry(tier string) []UniverseDef {
 		probes := []Tuple{ms(A[:14]), ms(A[:13]), ms(A), ms(A[:10]), ms(A + "d")}
 		return NewCompoundUniverse("LONGSTR", ustr, free, probes, 1)
 	}})
+	// fan-outs of every node class inside compound keys: n tuples sharing the leading field, free tuples below, inside and
+	// above the held ones (a new smallest / largest sibling, a deletion in the middle), numeric and string-tailed
+	for _, n := range []int{5, 17, 49} {
+		n := n
+		gi := Schema{Fields: []FieldType{FU16, FI8}}
+		mi := func(g uint64, x int64) Tuple { return Tuple{N: []Num{{T: FU16, U: g}, {T: FI8, I: x}}} }
+		out = append(out, UniverseDef{Name: fmt.Sprintf("compound[%s]/CFAN%d", gi.String(), n), Build: func() *Universe {
+			var setup []Tuple
+			for i := 0; i < n; i++ {
+				setup = append(setup, mi(1, int64(-100+4*i)))
+			}
+			free := []Tuple{mi(1, -128), mi(1, int64(-100+4*(n/2))), mi(1, int64(-100+4*(n/2))+1), mi(1, 127), mi(1, -100), mi(2, 0)}
+			return NewCompoundUniverseS(fmt.Sprintf("CFAN%d", n), gi, setup, free, []Tuple{mi(1, -127), mi(0, 0)}, 1)
+		}})
+		gs := Schema{Fields: []FieldType{FU32}, Str: true}
+		msn := func(g uint64, s string) Tuple { return Tuple{N: []Num{{T: FU32, U: g}}, S: s} }
+		out = append(out, UniverseDef{Name: fmt.Sprintf("compound[%s]/CFANS%d", gs.String(), n), Build: func() *Universe {
+			var setup []Tuple
+			for i := 0; i < n; i++ {
+				setup = append(setup, msn(7, string(rune('1'+i))+"x"))
+			}
+			free := []Tuple{msn(7, ""), msn(7, string(rune('1'+n/2))+"x"), msn(7, string(rune('1'+n/2))+"y"), msn(7, "\x7fz"), msn(7, "1x"), msn(9, "x")}
+			return NewCompoundUniverseS(fmt.Sprintf("CFANS%d", n), gs, setup, free, []Tuple{msn(7, "0"), msn(6, "")}, 1)
+		}})
+	}
 	// length-prefixed names behind a 10-byte tenant id: keys of different lengths without any terminator; the
 	// length byte lies in the hidden part of the shared path, so a probe can differ from every stored key only there,
 	// follow an existing branch and run out inside (or exactly at the end of) a deeper path
